@@ -7,3 +7,167 @@ LT_BASE_MS = {0: 50, 1: 1000, 2: 10000, 3: 100000}
 def lt_ms(lt):
     """lifetime in milliseconds denoted by an LT record"""
     return lt.multiplier * LT_BASE_MS[lt.base.value]
+
+
+# --------------------------------------------------------------------------- wire formats (DESIGN Appendix A)
+def u(v, bits):
+    """two's-complement image of v in `bits` bits"""
+    return v % (2 ** bits)
+
+
+def sgn(x, bits):
+    """signed value of a `bits`-wide two's-complement field"""
+    return x - 2 ** bits if x >= 2 ** (bits - 1) else x
+
+
+def be(data, off, n):
+    return int.from_bytes(data[off:off + n], "big")
+
+
+def bits(x, lo, width):
+    """field of `width` bits whose least significant bit is bit `lo` of x"""
+    return (x // 2 ** lo) % 2 ** width
+
+
+def lt_valid(lt):
+    return 0 <= lt.multiplier <= 63
+
+
+def lt_code(lt):
+    return lt.multiplier * 4 + lt.base.value
+
+
+def basic_header_valid(h):
+    return 0 <= h.version <= 15 and 0 <= h.reserved <= 255 and 0 <= h.rhl <= 255 and lt_valid(h.lt)
+
+
+def basic_header_int(h):
+    return h.version * 2 ** 28 + h.nh.value * 2 ** 24 + h.reserved * 2 ** 16 + lt_code(h.lt) * 2 ** 8 + h.rhl
+
+
+def tc_valid(tc):
+    return 0 <= tc.tc_id <= 63
+
+
+def tc_int(tc):
+    return (128 if tc.scf else 0) + (64 if tc.channel_offload else 0) + tc.tc_id
+
+
+def common_header_valid(h):
+    return (tc_valid(h.tc) and (h.flags == 0 or h.flags == 128) and 0 <= h.pl <= 65535 and 0 <= h.mhl <= 255
+            and h.reserved == 0)
+
+
+def common_header_int(h):
+    """nh:4 reserved:4 ht:4 hst:4 tc:8 flags:8 pl:16 mhl:8 reserved:8"""
+    return (h.nh.value * 2 ** 60 + h.ht.value * 2 ** 52 + h.hst.value * 2 ** 48 + tc_int(h.tc) * 2 ** 40
+            + h.flags * 2 ** 32 + h.pl * 2 ** 16 + h.mhl * 2 ** 8)
+
+
+def gn_addr_int(a):
+    """m:1 st:5 reserved:10 mid:48"""
+    return a.m.value * 2 ** 63 + a.st.value * 2 ** 58 + int.from_bytes(a.mid.mid, "big")
+
+
+def same_gn_addr(a, b):
+    return a.m == b.m and a.st == b.st and a.mid.mid == b.mid.mid
+
+
+def lpv_valid(p):
+    return (0 <= p.tst.msec < 2 ** 32 and -2 ** 31 <= p.latitude < 2 ** 31 and -2 ** 31 <= p.longitude < 2 ** 31
+            and -2 ** 14 <= p.s < 2 ** 14 and 0 <= p.h < 2 ** 16)
+
+
+def lpv_int(p):
+    """gn_addr:64 tst:32 lat:s32 lon:s32 pai:1 speed:s15 heading:16"""
+    return (gn_addr_int(p.gn_addr) * 2 ** 128 + p.tst.msec * 2 ** 96 + u(p.latitude, 32) * 2 ** 64
+            + u(p.longitude, 32) * 2 ** 32 + (2 ** 31 if p.pai else 0) + u(p.s, 15) * 2 ** 16 + p.h)
+
+
+def same_lpv(a, b):
+    return (same_gn_addr(a.gn_addr, b.gn_addr) and a.tst.msec == b.tst.msec and a.latitude == b.latitude
+            and a.longitude == b.longitude and a.pai == b.pai and a.s == b.s and a.h == b.h)
+
+
+def spv_valid(p):
+    return 0 <= p.tst.msec < 2 ** 32 and -2 ** 31 <= p.latitude < 2 ** 31 and -2 ** 31 <= p.longitude < 2 ** 31
+
+
+def spv_int(p):
+    return (gn_addr_int(p.gn_addr) * 2 ** 96 + p.tst.msec * 2 ** 64 + u(p.latitude, 32) * 2 ** 32
+            + u(p.longitude, 32))
+
+
+def same_spv(a, b):
+    return (same_gn_addr(a.gn_addr, b.gn_addr) and a.tst.msec == b.tst.msec and a.latitude == b.latitude
+            and a.longitude == b.longitude)
+
+
+def lpv_of_bytes_ok(r, data, off):
+    """r is the Long PV whose 24-octet image starts at data[off]"""
+    return (r.gn_addr.m.value == bits(be(data, off, 1), 7, 1) and r.gn_addr.st.value == bits(be(data, off, 1), 2, 5)
+            and r.gn_addr.mid.mid == data[off + 2:off + 8]
+            and r.tst.msec == be(data, off + 8, 4) and r.latitude == sgn(be(data, off + 12, 4), 32)
+            and r.longitude == sgn(be(data, off + 16, 4), 32) and r.pai == (bits(be(data, off + 20, 2), 15, 1) == 1)
+            and r.s == sgn(bits(be(data, off + 20, 2), 0, 15), 15) and r.h == be(data, off + 22, 2))
+
+
+def spv_of_bytes_ok(r, data, off):
+    return (r.gn_addr.m.value == bits(be(data, off, 1), 7, 1) and r.gn_addr.st.value == bits(be(data, off, 1), 2, 5)
+            and r.gn_addr.mid.mid == data[off + 2:off + 8]
+            and r.tst.msec == be(data, off + 8, 4) and r.latitude == sgn(be(data, off + 12, 4), 32)
+            and r.longitude == sgn(be(data, off + 16, 4), 32))
+
+
+def st_field(data, off):
+    return bits(be(data, off, 1), 2, 5)
+
+
+def ext_valid(h):
+    return 0 <= h.sn < 2 ** 16 and h.reserved == 0 and lpv_valid(h.so_pv)
+
+
+def gbc_valid(h):
+    return (ext_valid(h) and -2 ** 31 <= h.latitude < 2 ** 31 and -2 ** 31 <= h.longitude < 2 ** 31
+            and 0 <= h.a < 2 ** 16 and 0 <= h.b < 2 ** 16 and 0 <= h.angle < 2 ** 16 and h.reserved2 == 0)
+
+
+def gbc_int(h):
+    """sn:16 reserved:16 SO PV(24) area_lat:s32 area_lon:s32 a:16 b:16 angle:16 reserved:16"""
+    return (h.sn * 2 ** 336 + lpv_int(h.so_pv) * 2 ** 128 + u(h.latitude, 32) * 2 ** 96 + u(h.longitude, 32) * 2 ** 64
+            + h.a * 2 ** 48 + h.b * 2 ** 32 + h.angle * 2 ** 16)
+
+
+def tsb_int(h):
+    return h.sn * 2 ** 208 + lpv_int(h.so_pv)
+
+
+def guc_int(h):
+    """sn:16 reserved:16 SO PV(24) DE PV(20)"""
+    return h.sn * 2 ** 368 + lpv_int(h.so_pv) * 2 ** 160 + spv_int(h.de_pv)
+
+
+def ls_request_int(h):
+    return h.sn * 2 ** 272 + lpv_int(h.so_pv) * 2 ** 64 + gn_addr_int(h.request_gn_addr)
+
+
+def hst_known(ht, hst):
+    """is (ht, hst) an implemented header type / sub-type pair"""
+    if ht == 3 or ht == 4:
+        return hst <= 2
+    if ht == 5 or ht == 6:
+        return hst <= 1
+    return hst == 0
+
+
+def hst_class_ok(ht, hst):
+    name = type(hst).__name__
+    if ht.value == 3:
+        return name == "GeoAnycastHST"
+    if ht.value == 4:
+        return name == "GeoBroadcastHST"
+    if ht.value == 5:
+        return name == "TopoBroadcastHST"
+    if ht.value == 6:
+        return name == "LocationServiceHST"
+    return name == "HeaderSubType"
